@@ -12,7 +12,7 @@ def f_cls(t: int, shp: bool, dims: bool, scoped: bool, nm: int) -> bool:
     scope = Scope()
     i = sym.Variable(name='i')
     types = [None, SymbolAttributes(BasicType.INTEGER), SymbolAttributes(BasicType.DEFERRED),
-             SymbolAttributes(DerivedType('tt')), SymbolAttributes(ProcedureType('v', is_function=True))]
+             SymbolAttributes(DerivedType('tt')), SymbolAttributes(ProcedureType('v', is_function=False))]
     ty = types[t]
     if ty is not None and shp:
         ty = ty.clone(shape=(sym.IntLiteral(3),))
